@@ -27,7 +27,7 @@ const IDL = {
   Variant: o => ({ sx: () => `(variant${fields(o)})` }),
   Tuple: (...ts) => ({ sx: () => '(rec' + ts.map((t, i) => ` (${i} ${t.sx()})`).join('') + ')' }),
   Func: (a, r, m) => ({ sx: () => `(func (${a.map(x => x.sx()).join(' ')}) (${r.map(x => x.sx()).join(' ')}) (${m.map(x => { if (!(x in MODES)) throw new Error('mode ' + x); return MODES[x]; }).join(' ')}))` }),
-  Service: o => ({ sx: () => {
+  Service: o => ({ isService: true, sx: () => {
       const ms = Object.keys(o).map(k => [Buffer.from(k, 'utf8'), o[k]]);
       ms.sort((a, b) => Buffer.compare(a[0], b[0]));
       return '(serv' + ms.map(m => ` (${hex(m[0])} ${m[1].sx()})`).join('') + ')';
@@ -40,11 +40,14 @@ const IDL = {
 function run(name) {
   recs = [];
   // the generated module is ES-module syntax: strip the export keyword and evaluate in a function scope
-  const body = src.replace(/^export const /gm, 'const ') + `\nreturn { idlFactory: typeof idlFactory === 'undefined' ? undefined : idlFactory, init: typeof init === 'undefined' ? undefined : init };`;
+  // (a module is strict code: legacy octal escapes, duplicate parameters and the like are errors there)
+  const body = "'use strict';\n" + src.replace(/^export const /gm, 'const ') + `\nreturn { idlFactory: typeof idlFactory === 'undefined' ? undefined : idlFactory, init: typeof init === 'undefined' ? undefined : init };`;
   const mod = new Function(body)();
   const f = mod[name];
   if (!f) return null;
   const out = f({ IDL });
+  // what the factory returns is handed to the agent as the service: it must be the service type itself, not a recursion point
+  if (name === 'idlFactory' && !(out && out.isService === true)) throw new Error('the factory does not return a service type' + (out && out.fill ? ' (it returns an IDL.Rec() object)' : ''));
   for (const r of recs) { if (r.filled !== 1) throw new Error(`${r.name} filled ${r.filled} times`); }
   const env = '(' + recs.map(r => `(${hex(Buffer.from(r.name))} ${r.body.sx()})`).join(' ') + ')';
   const ty = Array.isArray(out) ? '(' + out.map(t => t.sx()).join(' ') + ')' : out.sx();
